@@ -173,6 +173,9 @@ Slice.empty = Slice(Fragment.empty, 0, 0)
 
 
 def replace(from_: "ResolvedPos", to: "ResolvedPos", slice: Slice) -> "Node":
+    if from_.pos > to.pos:
+        msg = "Replaced range ends before it starts"
+        raise ReplaceError(msg)
     if slice.open_start > from_.depth:
         msg = "Inserted content deeper than insertion position"
         raise ReplaceError(msg)
